@@ -110,11 +110,36 @@ type recApp struct {
 	sys  *actor.ActorSystem
 	log  *evlog
 	list []hosted // configuration order, duplicates allowed
+
+	mu     sync.Mutex
+	hidden map[string]bool // names GetService currently does not resolve (OHide / OShow)
 }
 
 func (a *recApp) GetActorSystem() *actor.ActorSystem { return a.sys }
 
+func (a *recApp) setHidden(name string, h bool) {
+	a.mu.Lock()
+	defer a.mu.Unlock()
+	if h {
+		a.hidden[name] = true
+	} else {
+		delete(a.hidden, name)
+	}
+}
+
+// GetService: what the node application resolves right now.  A hidden service keeps running
+// (and can still report "retired"); it just cannot be found, as during a topology refresh.
 func (a *recApp) GetService(name string) *actor.PID {
+	a.mu.Lock()
+	hid := a.hidden[name]
+	a.mu.Unlock()
+	if hid {
+		return nil
+	}
+	return a.find(name)
+}
+
+func (a *recApp) find(name string) *actor.PID {
 	for _, h := range a.list {
 		if h.name == name {
 			return h.pid
@@ -312,7 +337,7 @@ func newWorld(cfg []hx.Pair) *world {
 	w := &world{sys: quietSystem(), log: &evlog{}, running: map[int64]*hsvc{}}
 	app.Node = app.NewNode()
 	app.Node.SetProvider(&recProvider{w.log})
-	w.rec = &recApp{real: app.Node, sys: w.sys, log: w.log}
+	w.rec = &recApp{real: app.Node, sys: w.sys, log: w.log, hidden: map[string]bool{}}
 	// master
 	w.master = &probe{Service: as.NewService()}
 	started := make(chan struct{})
@@ -330,7 +355,7 @@ func newWorld(cfg []hx.Pair) *world {
 		tok, disp := c.A.(int64), hx.AsTerm(c.B).Name
 		h := hosted{name: svcName(tok)}
 		if w.declared(h.name) {
-			h.pid = w.rec.GetService(h.name) // duplicate entry: the first declaration decides
+			h.pid = w.rec.find(h.name) // duplicate entry: the first declaration decides
 		} else if disp != dAbsent {
 			h.pid = w.spawnService(tok, disp).pid
 		}
@@ -530,6 +555,10 @@ func (w *world) do(o hx.T) any {
 			w.ctrl.VerifPost(func() { fin(succ); close(done) })
 			waitOn(done, "stop-done")
 		}
+	case "OHide":
+		w.rec.setHidden(svcName(o.Int(0)), true)
+	case "OShow":
+		w.rec.setHidden(svcName(o.Int(0)), false)
 	default:
 		panic("c12: unknown op " + o.Name)
 	}
